@@ -123,7 +123,7 @@ def make_param(eng, kind, hint):
         return SV(None, "slice")
     if kind in ("asgpred", "asgfun"):
         from . import enumth as EN
-        return EN.AbstractFn("valid" if kind == "asgpred" else "value")
+        return EN.param_fn(eng, "valid" if kind == "asgpred" else "value", hint)
     if kind == "newresults":
         from . import lists as LS
         o = eng.alloc(PObj(eng.db.classes["AnnealResults"]))
@@ -282,6 +282,25 @@ def make_result(eng, kind, env, hint="result"):
         return make_model(eng, kind.split(":", 2)[2], hint)
     if kind == "fresh:results":
         return make_param(eng, "results", hint)
+    if kind in ("bfresult", "bfsolution"):
+        # (objective, solution) of a brute-force solver: the shape depends on all_solutions and on whether anything
+        # was valid / the model was constant; the path forks over the shapes and the postconditions select
+        from . import enumth as EN
+        alls = eng.tobool(env["all_solutions"])
+        alls = alls if isinstance(alls, bool) else eng.branch(alls)
+        eng.nfresh += 1
+        which = z3.Int("%s_shape!%d" % (hint, eng.nfresh))
+        empty = lambda: eng.alloc(DictVal(FO.empty(eng, T.Key, T.Real)))
+        from .values import ListVal
+        if eng.branch(which == 0):          # nothing valid
+            r = (None, eng.alloc(ListVal([])) if alls else empty())
+        elif eng.branch(which == 1):        # constant model
+            r = (eng.fresh("real", hint + "_objective"), eng.alloc(ListVal([empty()])) if alls else empty())
+        else:
+            eng.nfresh += 1
+            sol = SV(z3.Const("%s_list!%d" % (hint, eng.nfresh), EN.CntSort), "asglist") if alls else EN.fresh_asg(eng, hint + "_solution")
+            r = (eng.fresh("real", hint + "_objective"), sol)
+        return r if kind == "bfresult" else r[1]
     return make_param(eng, kind, hint)
 
 
@@ -291,6 +310,13 @@ def _apply_contract(eng, c, env, cl):
     cl_self = None
     caller = eng.call_stack[-1] if eng.call_stack else (eng.target.qualname if eng.target else "?")
     inst_kind = None
+    for inst in c.instances:
+        for p, kind in inst.items():
+            if kind in ("asgpred", "asgfun") and p in env:
+                from . import enumth as EN
+                a = EN.as_abstract(eng, env[p], "valid" if kind == "asgpred" else "value")
+                if a is not None:
+                    env[p] = a
     fr = Frame(cl, dict(env))
     if not c.trusted and shape_covered(eng, c, env) is False:
         # the contract was discharged for the parameter shapes listed in its `instances` only
